@@ -26,6 +26,11 @@ CLAIMED = {
             'removeObsList) with symbolic integer instants (ties allowed) and symbolic integer arguments case-split by the solver: the returned observations are compared with the designated '
             'ones per path, time order proved from the path condition.',
             'DESIGN.md#c04', 'sort n <= 4/6; insertion into sorted tracks of size 0..9/17; slicing family n <= 4/6', ''),
+    'C05': ('Bounded model checking of linear resampling through Track.resample: temporal mode with symbolic fixes, symbolic integer-millisecond instants and a symbolic step / list of instants / '
+            'reference track (per path: exactly the requested instants in (t_first, t_last] are produced, each proved equal to the linear interpolation between its bracketing fixes and stamped to the ms); '
+            'spatial mode with symbolic coordinates and sampling distance (sample count, position on the polyline at abscissa k*ds through independent square-root terms, interpolated height and time, '
+            'non-decreasing timestamps).',
+            'DESIGN.md#c05', 'n = 2..3 fixes; at most 3 requested instants / samples; spatial n = 3 in the thorough tier only', ''),
     'C06': ('Bounded model checking of Dijkstra routing (run_routing_forward / shortest_distance / all_shortest_distances / prepare) with symbolic '
             'edge weights and cut-off on exhaustively enumerated small multigraph topologies, against the minimum over all enumerated permitted walks.',
             'DESIGN.md#c06', 'topologies: 1-3 edges on <=3 nodes exhaustively (thorough: + seeded 4-5 node graphs); weights in [0,1000]', ''),
